@@ -621,14 +621,25 @@ class System:
         if self.bounded and any(f["role"] == "engine" and "receiver._lock" in f["held"] and "producer._lock" in f["held"]
                                 for f in targets):
             self.refill = True       # the cycle goes through a complex event handed back to a FULL receiver queue
+        # a cycle through something the run() thread does while HOLDING a lock may lie on its start-up path: the engine
+        # and the feeders must then be at work already when run() starts (an application may start them in any order)
+        early = any(f["role"] == "dist-main" and f["held"] and not f["req"].startswith("alive:") for f in targets)
+
+        def start_engine_side():
+            # engine.update() is a public entry point: as many engine threads as the cycle to force needs (two when
+            # free-running: a second driver next to the engine loop)
+            for _ in range(max(2 if not targets else 1, sum(1 for f in targets if f["role"] == "engine"))):
+                self.as_role("engine", loop(self.engine.update), wait=False)
+            self.as_role("feeder", loop(feeder), wait=False)
+            self.as_role("feeder", loop(feeder), wait=False)
+        if early:
+            start_engine_side()
+            _time.sleep(0.3)
         self.as_role("dist-main", self.dist.run, wait=False)
-        self.wait_until(lambda: getattr(self.dist, "_running", True), "dist.run() did not start")
-        # engine.update() is a public entry point: as many engine threads as the cycle to force needs (two when
-        # free-running: a second driver next to the engine loop)
-        for _ in range(max(2 if not targets else 1, sum(1 for f in targets if f["role"] == "engine"))):
-            self.as_role("engine", loop(self.engine.update), wait=False)
-        self.as_role("feeder", loop(feeder), wait=False)
-        self.as_role("feeder", loop(feeder), wait=False)
+        self.wait_until(lambda: getattr(self.dist, "_running", True) or (early and (bool(claimed) or passed.is_set())),
+                        "dist.run() did not start")
+        if not early:
+            start_engine_side()
         self.as_role("dist-incoming", free(self.dist._tcp_incoming), wait=False)
         self.as_role("dist-outgoing", free(self.dist._tcp_outgoing), wait=False)
         self.as_role("observer", loop(lambda: (self.getters(), _time.sleep(0.002))), wait=False)
